@@ -122,6 +122,87 @@ theorem accessor_memoises (ρ : ExtOracle N) (n : Nat) (M name : String) (locals
   · intro m args' σ'' h
     exact accessor_cached ρ m M name locals cM tM tC σ.tables.length (first vs) args' σ'' h
 
+/-- a small concrete number system for the non-vacuity examples -/
+def natOps : NumOps where
+  F := Nat
+  ofBits := fun b => b.toNat
+  toBits := fun n => UInt64.ofNat n
+  add := (· + ·)
+  sub := (· - ·)
+  mul := (· * ·)
+  div := (· / ·)
+  mod := (· % ·)
+  pow := (· ^ ·)
+  idiv := (· / ·)
+  neg := id
+  lt := fun a b => decide (a < b)
+  le := fun a b => decide (a ≤ b)
+  eq := fun a b => decide (a = b)
+  isNaN := fun _ => false
+  ofNat := id
+  toNat? := some
+  toStr := fun _ => []
+  ofStr := fun _ => none
+  floor := id
+  sqrt := id
+
+def exBody : Block := .mk [] (some (.ret [.false]))
+def exLocals : List (String × Nat) := [(implName, 1), ("M", 0)]
+def exState : State natOps :=
+  { globals := [], trace := [],
+    cells := [.tbl 0, .fn 0],
+    tables := [{ entries := [(strVal "cache", .tbl 1)], mt := none }, { entries := [], mt := none }],
+    closures := [implClosure exBody exLocals] }
+def exAfter : State natOps :=
+  ((exState.allocCell .nil).2.allocTable { entries := [], mt := none }).2
+
+-- non-vacuity of `accessor_memoises`: a module whose body is `return false`
+example (ρ : ExtOracle natOps) :
+    ∃ σ', callClosure ρ 2 (accClosure "M" "a" exLocals) [] exState = .ok [.bool false] σ' ∧ σ'.trace = [] := by
+  have h := accessor_memoises ρ 0 "M" "a" exLocals exBody exLocals 0 0 1 1 0 [.bool false] [] exState exAfter
+    (by decide) (by simp [exLocals, lookupAssoc, implName]) (by simp [exLocals, lookupAssoc])
+    (by simp [exState, State.getCell]) (by simp [exState, State.rawGet, State.getTable, rawGetEntries, rawEq, strVal])
+    (by simp [exState, State.rawGet, State.getTable, rawGetEntries]) (by simp [exState, State.getTable])
+    (by simp [exState]) (by decide)
+    (by simp [exState, State.getCell]) (by simp [exState])
+    (by simp [callClosure, implClosure, implFn, exBody, execB, execSs, execLast, evalEs, evalE, Res.bind, bindLocals,
+      exAfter])
+    (by simp [exAfter, exState, State.allocCell, State.allocTable])
+    (by simp [exAfter, exState, State.allocCell, State.allocTable])
+    (by simp [exAfter, exState, State.allocCell, State.allocTable, State.getTable])
+    (by simp [exAfter, exState, State.allocCell, State.allocTable, State.getCell])
+    (by simp [exAfter, exState, State.allocCell, State.allocTable, State.rawGet, State.getTable, rawGetEntries, rawEq, strVal])
+    (by simp [exAfter, exState, State.allocCell, State.allocTable, State.rawGet, State.getTable, rawGetEntries])
+    (by simp [exAfter, exState, State.allocCell, State.allocTable, State.getTable])
+  obtain ⟨σ', h1, h2, _⟩ := h
+  exact ⟨σ', by simpa [first] using h1, by rw [h2]; simp [exAfter, exState, State.allocCell, State.allocTable]⟩
+
+
+/-- **Module locals stay inside.** Executing one generated module definition
+`do local function __modImpl() B end  function M.<name>() … end end` in an environment where `M`
+is the modules table leaves the environment exactly as it was: neither `__modImpl` nor any local
+of the module body `B` is in scope for the statements that follow (the body's locals only ever
+live in the environment of a call of `__modImpl`); the only visible change is the new field
+`M.<name>`. -/
+theorem definition_scoped (call : CallFn N) (ρ : ExtOracle N) (k : Nat) (env : Env N) (M name : String)
+    (B : Block) (cM tM : Nat) (σ : State N)
+    (hMI : M ≠ implName)
+    (hM : lookupAssoc M env.locals = some cM)
+    (hcell : σ.getCell cM = .tbl tM)
+    (hslot : σ.rawGet tM (strVal name) = .nil)
+    (hmt : (σ.getTable tM).mt = none) :
+    execS call ρ (k + 1) env (moduleDefinition M name B) σ
+      = .ok (.next env) (afterDefinition M name B env.locals tM σ) :=
+  exec_moduleDefinition call ρ k env M name B cM tM σ hMI hM hcell hslot hmt
+
+-- non-vacuity of `definition_scoped`
+example (call : CallFn natOps) (ρ : ExtOracle natOps) :
+    ∃ σ', execS call ρ 1 ⟨[("M", 0)], []⟩ (moduleDefinition "M" "a" exBody)
+      ({ globals := [], trace := [], cells := [.tbl 0], tables := [{ entries := [], mt := none }], closures := [] } : State natOps)
+      = .ok (.next ⟨[("M", 0)], []⟩) σ' :=
+  ⟨_, definition_scoped call ρ 0 ⟨[("M", 0)], []⟩ "M" "a" exBody 0 0 _ (by decide) (by simp [lookupAssoc])
+    (by simp [State.getCell]) (by simp [State.rawGet, State.getTable, rawGetEntries]) (by simp [State.getTable])⟩
+
 /-! ## The inlining walk (`RequirePathProcessor`) -/
 
 section graph
@@ -259,5 +340,94 @@ theorem inline_dag (G : Graph P) (entrySites : List (Site P))
       omega
 
 end graph
+
+/-! ### examples (non-vacuity) on concrete graphs over `Nat` paths -/
+
+/-- entry requires 1 and 2; 1 requires 2 and 3; 2 requires 3 (twice); 3 is a data file -/
+def exDag : Graph Nat :=
+  [(1, .lua [⟨false, .file 2⟩, ⟨false, .file 3⟩] .one), (2, .lua [⟨false, .file 3⟩, ⟨false, .file 3⟩] .one), (3, .data)]
+def exEntry : List (Site Nat) := [⟨false, .file 1⟩, ⟨false, .file 2⟩, ⟨true, .file 3⟩, ⟨false, .excluded⟩]
+
+example : (inlineAll exDag exEntry).errors = [] ∧ (inlineAll exDag exEntry).defs.map (·.1) = [3, 2, 1] ∧
+    (inlineAll exDag exEntry).entry = [some 2, some 1, none, none] := by decide
+
+/-- 1 → 2 → 3 → 2 -/
+def exCyc : Graph Nat :=
+  [(1, .lua [⟨false, .file 2⟩] .one), (2, .lua [⟨false, .file 3⟩] .one), (3, .lua [⟨false, .file 2⟩] .one)]
+
+example : Err.cyclic [2, 3, 2] ∈ (inlineAll exCyc [⟨false, .file 1⟩]).errors := by decide
+example : Err.fuel ∉ (inlineAll exCyc [⟨false, .file 1⟩]).errors := inline_total _ _
+
+/-! ## F8: required modules are walked without scopes -/
+
+/-- FULL statement: a call site at which a local `require` is in scope is never rewritten —
+neither in the entry nor in a required module. -/
+def shadowed_never_rewritten_full : Prop :=
+  ∀ (G : Graph Nat) (entrySites : List (Site Nat)),
+    (∀ (k : Nat) (s : Site Nat), entrySites[k]? = some s → s.shadowed = true →
+      (inlineAll G entrySites).entry[k]? = some none) ∧
+    (∀ (p : Nat) (ds : List (Option Nat)) (sites : List (Site Nat)) (ret : RetShape),
+      (p, ds) ∈ (inlineAll G entrySites).defs → G.get p = some (.lua sites ret) →
+      ∀ (k : Nat) (s : Site Nat), sites[k]? = some s → s.shadowed = true → ds[k]? = some none)
+
+/-- witness of F8: module 1 shadows `require` and then calls it on a path resolving to file 2 -/
+def exF8 : Graph Nat := [(1, .lua [⟨true, .file 2⟩] .one), (2, .data)]
+
+/-- The full statement is FALSE of the code (finding F8): in the witness the shadowed call of
+module 1 is rewritten to the accessor of definition 0 (file 2). -/
+theorem shadowed_never_rewritten_full_false : ¬ shadowed_never_rewritten_full := by
+  intro h
+  have h2 := (h exF8 [⟨false, .file 1⟩]).2 1 [some 0] [⟨true, .file 2⟩] .one (by decide) rfl 0
+    ⟨true, .file 2⟩ (by decide) rfl
+  revert h2
+  decide
+
+theorem visit_entry_shadowed {P : Type} [DecidableEq P] (inl : P → St P → Except (Err P) Nat × St P)
+    (sites : List (Site P)) (st : St P) (k : Nat) (s : Site P)
+    (hk : sites[k]? = some s) (hs : s.shadowed = true) :
+    (visit inl true sites st).1[k]? = some none := by
+  induction sites generalizing st k with
+  | nil => simp at hk
+  | cons s0 rest ih =>
+    cases k with
+    | zero =>
+      simp at hk; subst hk
+      simp [visit, tryInline, hs]
+    | succ k =>
+      simp at hk
+      simp only [visit, List.getElem?_cons_succ]
+      exact ih _ k hk
+
+/-- PARTIAL (what holds): under `H5 G` (no required module has a shadowed call site — the decidable
+hypothesis the driver exposes as `c05.h5`) no shadowed call site is ever rewritten; the entry,
+walked with `ScopeVisitor`, is always treated correctly. Missing for the full statement: the Rust
+walks required modules with `DefaultVisitor` (F8). -/
+theorem shadowed_never_rewritten_partial (G : Graph Nat) (entrySites : List (Site Nat)) (h5 : H5 G = true) :
+    (∀ (k : Nat) (s : Site Nat), entrySites[k]? = some s → s.shadowed = true →
+      (inlineAll G entrySites).entry[k]? = some none) ∧
+    (∀ (p : Nat) (ds : List (Option Nat)) (sites : List (Site Nat)) (ret : RetShape),
+      (p, ds) ∈ (inlineAll G entrySites).defs → G.get p = some (.lua sites ret) →
+      ∀ (k : Nat) (s : Site Nat), sites[k]? = some s → s.shadowed = true → ds[k]? = some none) := by
+  refine ⟨fun k s hk hs => visit_entry_shadowed _ entrySites St.empty k s hk hs, ?_⟩
+  intro p ds sites ret _ hget k s hk hs
+  exfalso
+  have hmem : ∀ (G : Graph Nat), G.get p = some (.lua sites ret) → (p, Module.lua sites ret) ∈ G := by
+    intro G
+    induction G with
+    | nil => intro h; simp [Graph.get] at h
+    | cons e G ih =>
+      obtain ⟨k', m⟩ := e
+      intro h
+      simp only [Graph.get] at h
+      split at h
+      · rename_i hk'; simp at h; subst h; subst hk'; exact List.mem_cons_self
+      · exact List.mem_cons_of_mem _ (ih h)
+  have hall := List.all_eq_true.mp h5 _ (hmem G hget)
+  simp only at hall
+  have := List.all_eq_true.mp hall s (List.mem_of_getElem? hk)
+  simp [hs] at this
+
+-- non-vacuity: `exDag` satisfies H5 and its entry has a shadowed site
+example : H5 exDag = true ∧ exEntry[2]? = some ⟨true, .file 3⟩ := by decide
 
 end DarkluaModel.C05
